@@ -109,6 +109,12 @@ def generate_map(
 ) -> GenNodes:
     attributes = node.args
 
+    for range_name in ("bank_range", "mirror_bank_range"):
+        banks = attributes.get(range_name)
+        if banks is not None and max(banks) > 0xFF:
+            # a bus has 256 banks: walking a range of billions would never end.
+            raise NodeError(f".map {range_name} {banks[0]:#x}, {banks[1]:#x} is outside banks 0x00-0xff", file_info)
+
     resolver.bus.map(
         str(attributes["identifier"]),
         attributes["bank_range"],
